@@ -25,14 +25,15 @@ META = {
             "identity-aware snapshot of the whole world (must stay the single initial state); non-trivial = "
             "history of >= 2 operations whose last result was compared with the fresh-object result. "
             "S: every schedule of 2 threads x 1-2 operations with <= k preemptions at line granularity",
-    "assumptions": ["thread switches happen between source lines of valida/*.py, not inside one (sys.settrace line "
-                    "events); CPython GIL semantics; 2 threads",
+    "assumptions": ["thread switches happen between source lines of valida/*.py, and between bytecodes inside write-ish lines "
+                    "where the 'write+op' point set is used (sys.settrace line / opcode events); CPython GIL semantics; 2 threads",
                     "DFS below each depth-1 prefix reuses the live world (its snapshot is verified after every "
                     "operation); any violation is recorded with the full operation list since the world was built "
                     "and re-confirmed by a from-scratch replay"],
-    "bounds": {"quick": {"history_depth": 2, "preemptions": "<= 1 over write-ish line points (before each write and at the line after it), 8 harnesses"},
-               "thorough": {"history_depth": 3, "preemptions": "<= 1 over ALL line points (8 harnesses); <= 2 over write-ish points for the "
-                                                                 "3 smallest harnesses (two-filters, same-rule-twice, part-combinations)"}},
+    "bounds": {"quick": {"history_depth": 2, "preemptions": "<= 1 over write-ish line points (before each write and at the line after it), 9 harnesses; for two small "
+                                                        "harnesses (two-filters, warm-cast-race) also at every bytecode boundary inside a write-ish line"},
+               "thorough": {"history_depth": 3, "preemptions": "<= 1 over ALL line points and over write-ish points at bytecode granularity (9 harnesses); <= 2 over "
+                                                                 "write-ish points for the 3 smallest harnesses (two-filters, same-rule-twice, part-combinations)"}},
     "technique": "stateless exploration of all operation histories on shared live objects + CHESS-style "
                  "preemption-bounded exploration of all 2-thread schedules under a cooperative line-level scheduler",
 }
@@ -74,6 +75,9 @@ class World:
             Rule(["a"], Value.dtype.equal_to(list), doc={"description": ["the `a` list"], "examples": []}),
             Rule(["a", ListValue()], Value.dtype.equal_to(int) & a),
         ])
+        # a one-rule cast schema and two tiny documents with strings that occur nowhere else
+        self.s_one = Schema([Rule(["v"], Value.dtype.equal_to(int), cast=dict(INT))])
+        self.ones = [{"v": "70001"}, {"v": "70002"}, Data({"v": "70003"})]
         self.rules = self.s_cast.rules + self.s_path.rules
         self.d1 = {"m": {"x": "3", "flag": "true"}, "a": 1, "b": 1, "lo": 0, "lst": [1, "x", -2], "n": 4,
                    "w": {"flag": "3", "x": "true"}, "tbl": [[1, 2], [3, 4], [5, 6]]}
@@ -82,7 +86,7 @@ class World:
         self.docs = [self.d1, self.d2, self.d3]
 
     def roots(self):
-        return [self.a, self.b, self.ab, self.k, self.part, self.part2, self.mpart, self.pa, self.rows, self.s_cast, self.s_path, self.s_doc,
+        return [self.a, self.b, self.ab, self.k, self.part, self.part2, self.mpart, self.pa, self.rows, self.s_cast, self.s_path, self.s_doc, self.s_one, self.ones,
                 self.d1, self.d2, self.d3]
 
 
@@ -116,6 +120,7 @@ def menu():
         ops.append(("get part paths", di, lambda w, di=di: vsnap(DataPath(w.part).get_data(w.docs[di], return_paths=True))))
         ops.append(("get rows", di, lambda w, di=di: vsnap((w.rows if di != 1 else DataPath(ListValue(), ListValue())).get_data(w.docs[di], return_paths=(di == 0)))))
         ops.append(("validate cast", di, lambda w, di=di: obs_validated(w.s_cast.validate(w.docs[di]))))
+        ops.append(("validate one", di, lambda w, di=di: obs_validated(w.s_one.validate(w.ones[di]))))
         ops.append(("validate path", di, lambda w, di=di: obs_validated(w.s_path.validate(w.docs[di]))))
         for ri in range(9):
             ops.append(("test r%d" % ri, di, lambda w, di=di, ri=ri: obs_ruletest(w.rules[ri].test(w.docs[di]))))
